@@ -118,6 +118,122 @@ def check_imag(label, method, cfg, kind, mname, model, h, st, sname):
             fail("order/" + label, rec)
 
 
+def step_bound(kind, hn, tau):
+    return kind[1] if kind[0] == "exact" else 10 * (hn * tau) ** (kind[1] + 1) + 1e-9
+
+
+def check_imag_reuse(mname, model, h, st, sname, table):
+    """the same input OBJECT cooled to two different imaginary times: each result must be the normalised exp(-tau H) psi0 of the
+    ORIGINAL psi0, and the input must be unchanged (vector and prefactor)"""
+    mpo = Mpo(model)
+    hn = float(np.linalg.norm(h, 2))
+    for label, method, cfg, kind in table:
+        if time.time() - T0 > 1.5 * BUDGET:
+            return
+        try:
+            a = st.copy()
+            c = {k: (-0.02j if v == "IDT" else v) for k, v in cfg.items()}
+            set_cfg(a, method, m_max=64, **c)
+            psi = dense_of(a)
+            errs = []
+            for tau in (0.02, 0.03):
+                out = a.evolve(mpo, -1j * tau)
+                errs.append(float(np.linalg.norm(dense_of(out) - nref(h, psi, tau))))
+            moved = float(np.linalg.norm(dense_of(a) - psi))
+        except Exception as ex:
+            rec = {"check": "imag-reuse", "scheme": label, "model": mname, "state": sname, "exc": repr(ex)[:300]}
+            records.append(rec)
+            fail("exception/imag-reuse/" + label.split("/")[0], rec)
+            continue
+        bounds = [step_bound(kind, hn, 0.02), step_bound(kind, hn, 0.03)]
+        rec = {"check": "imag-reuse", "scheme": label, "model": mname, "state": sname, "errs": errs, "bounds": bounds, "input_moved": moved}
+        records.append(rec)
+        if moved > 1e-12 or not all(e <= b for e, b in zip(errs, bounds)):
+            fail("imag-reuse/" + label.split("/")[0], rec)
+
+
+import logging
+
+
+class Cap(logging.Handler):
+    def __init__(self):
+        super().__init__(level=logging.DEBUG)
+        self.acc = 0
+
+    def emit(self, record):
+        m = record.msg if isinstance(record.msg, str) else ""
+        if m.startswith("evolution converged") or m.startswith("sub-step"):
+            self.acc += 1
+
+
+_lg = logging.getLogger("renormalizer.mps.mps")
+_cap = Cap()
+_lg.addHandler(_cap)
+_lg.setLevel(logging.DEBUG)
+_lg.propagate = False
+IMAG_ADAPTIVE = [("ps", "tdvp_ps", {}, 1e-5, 8.0), ("ps2", "tdvp_ps2", {}, 1e-5, 8.0), ("cmf2", "tdvp_mu_cmf", {}, 1e-3, 8.0),
+                 ("taylor", "prop_and_compress", {}, 1e-5, 32.0), ("tdrk/RKF45", "prop_and_compress_tdrk", {"rk_solver": "RKF45"}, 1e-5, 32.0)]
+
+
+def check_imag_adaptive(mname, model, h, st, sname):
+    mpo = Mpo(model)
+    psi = dense_of(st)
+    tau = 0.4
+    ref = nref(h, psi, tau)
+    for label, method, cfg, rtol, accf in IMAG_ADAPTIVE:
+        if time.time() - T0 > 1.5 * BUDGET:
+            return
+        for guess in (0.05, 0.8):
+            _cap.acc = 0
+            try:
+                a = st.copy()
+                set_cfg(a, method, m_max=64, adaptive=True, guess_dt=-1j * guess, adaptive_rtol=rtol, **cfg)
+                out = a.evolve(mpo, -1j * tau)
+                e = float(np.linalg.norm(dense_of(out) - ref))
+                moved = float(np.linalg.norm(dense_of(a) - psi))
+            except Exception as ex:
+                rec = {"check": "imag-adaptive", "scheme": label, "model": mname, "guess": guess, "exc": repr(ex)[:300]}
+                records.append(rec)
+                fail("exception/imag-adaptive/" + label.split("/")[0], rec)
+                continue
+            bound = 10 * accf * rtol * max(1, _cap.acc) + 1e-8
+            rec = {"check": "imag-adaptive", "scheme": label, "model": mname, "state": sname, "guess": guess, "rtol": rtol, "err": e, "bound": bound,
+                   "accepted_msgs": _cap.acc, "input_moved": moved}
+            records.append(rec)
+            if not (e <= bound and moved <= 1e-12):
+                fail("imag-adaptive/" + label.split("/")[0], rec)
+
+
+def check_thermal_adaptive(r):
+    nbas = int(r.choice([2, 3]))
+    model, h, dims, info = holstein_model(2, nbas, r)
+    proj, cfgs = sector_projector(dims, [0, 2], 1)
+    for label, method, rtol in (("ps2", "tdvp_ps2", 1e-5), ("ps", "tdvp_ps", 1e-5)):
+        for beta in (0.5, 2.0):
+            if time.time() - T0 > 1.5 * BUDGET:
+                return
+            try:
+                a = MpDm.max_entangled_ex(model)
+                a.compress_config = CompressConfig(CompressCriteria.fixed, max_bonddim=64)
+                tp = ThermalProp(a, evolve_config=EvolveConfig(getattr(EvolveMethod, method), adaptive=True, guess_dt=-0.05j, adaptive_rtol=rtol))
+                tp.evolve(evolve_dt=-1j * beta / 4, nsteps=2)
+            except Exception as ex:
+                rec = {"check": "thermal-adaptive", "scheme": label, "beta": beta, "exc": repr(ex)[:300]}
+                records.append(rec)
+                fail("exception/thermal-adaptive/" + label, rec)
+                continue
+            rho = proj @ sla.expm(-beta * h) @ proj
+            z = np.trace(rho)
+            e_ref = float(np.trace(rho @ h) / z)
+            occ_ref = [float(np.trace(rho @ np.diag(np.array([c[k] for c in cfgs], dtype=float))) / z) for k in (0, 2, 1, 3)]
+            occ = [float(x) for x in tp.e_occupations_array[-1]] + [float(x) for x in tp.ph_occupations_array[-1]]
+            dev = max([abs(float(np.real(tp.energies[-1])) - e_ref) / max(1.0, abs(e_ref))] + [abs(a_ - b_) for a_, b_ in zip(occ, occ_ref)])
+            rec = {"check": "thermal-adaptive", "scheme": label, "beta": beta, "dev": dev, "energy": float(np.real(tp.energies[-1])), "energy_ref": e_ref}
+            records.append(rec)
+            if not dev <= 1e-3:
+                fail("thermal-adaptive/" + label, rec)
+
+
 def sector_projector(dims, esites, sector):
     cfgs = list(itertools.product(*[range(d) for d in dims]))
     nex = np.array([sum(c[k] for k in esites) for c in cfgs])
@@ -222,6 +338,11 @@ for kind in ("spin", "holstein"):
 for ti_ in range(len(THERMAL)):
     jobs.append(("thermal", "holstein", ti_))
 jobs.append(("thermal-other-model", "holstein", 0))
+for kind in ("spin", "holstein"):
+    for li in range(0, len(table), 10):
+        jobs.append(("imag-reuse", kind, li))
+    jobs.append(("imag-adaptive", kind, 0))
+jobs.append(("thermal-adaptive", "holstein", 0))
 mine = [j for i, j in enumerate(jobs) if i % NSH == SHARD]
 skipped = 0
 for what, kind, li in mine:
@@ -251,6 +372,12 @@ for what, kind, li in mine:
             check_imag(label, method, cfg, knd, mname, model, h, e.expand_bond_dimension(hint_mpo=Mpo(model), coef=1e-6), "mpdm-expanded")
     elif what == "thermal-other-model":
         check_thermal_other_model(r2)
+    elif what == "imag-reuse":
+        check_imag_reuse(mname, model, h, st_c if kind == "spin" else st_r, "complex" if kind == "spin" else "real", table[li:li + 10])
+    elif what == "imag-adaptive":
+        check_imag_adaptive(mname, model, h, st_r, "real")
+    elif what == "thermal-adaptive":
+        check_thermal_adaptive(r2)
     else:
         check_thermal(r2, THERMAL[li])
 
